@@ -127,7 +127,10 @@ func (info *NodeInfo) DecodeJSON(b []byte, enc encoder.Encoder) error {
 
 	params := isaac.NewParams(info.networkID)
 
-	if err := encoder.Decode(enc, u.Local.LocalParams, params); err != nil {
+	// NOTE *isaac.Params is registered in the encoder as a pointer; decoding
+	// by hint into the pointed value fails with "expected isaac.Params, but
+	// *isaac.Params".
+	if err := enc.Unmarshal(u.Local.LocalParams, params); err != nil {
 		return e.Wrap(err)
 	}
 
